@@ -19,6 +19,11 @@ type deliveryMonitor struct {
 	ownSeq map[string]map[int64]bool // replica -> serverSeqs of the changes it pushed
 	head   int64
 	last   map[string][2]int64 // replica -> last applied response checkpoint
+	// byActor: requests run concurrently (step-level engine), so "what this request
+	// stored" cannot be read off the growth of the log; the replica's own changes are
+	// recognised by their author instead, and the comparison with the stored log is
+	// made when the response arrives (the log below a response checkpoint is final).
+	byActor bool
 }
 
 func (m *deliveryMonitor) fail(oracle, class, detail string) {
@@ -56,7 +61,11 @@ func (m *deliveryMonitor) tap(ev *WireEvent) {
 	}
 	// what this request stored is this replica's own (requests are sequential
 	// in this engine, so the log grew by exactly this request's changes)
-	if info.ServerSeq > m.head {
+	if m.byActor {
+		if info.ServerSeq > m.head {
+			m.head = info.ServerSeq
+		}
+	} else if info.ServerSeq > m.head {
 		if key != "" {
 			if m.ownSeq[key] == nil {
 				m.ownSeq[key] = map[int64]bool{}
@@ -115,6 +124,12 @@ func (m *deliveryMonitor) tap(ev *WireEvent) {
 		for _, ci := range infos {
 			if m.ownSeq[key][ci.ServerSeq] {
 				continue // the replica's own change
+			}
+			if m.byActor && ci.ActorID.String() == ev.ClientID {
+				// its own change, or one of an earlier attachment of this client
+				// (re-attachment by the same client has its own finding)
+				optional[ci.ServerSeq] = true
+				continue
 			}
 			if ci.ActorID.String() == ev.ClientID && len(ci.Operations) == 0 {
 				// presence-only change of an earlier attachment of this very
